@@ -55,7 +55,8 @@ prop("C08", "exploration",
      "recipients (decrypted by each); decoded slates are compared field by field on native values with the original, with each other, "
      "and back at the SlateV4 level; plus addresses and stored records (OutputData, TxLogEntry, Context, Slatepack) through their own "
      "codecs. distinct = tuple of which optional parts were present/their size class; non-trivial = all",
-     [{"name": "c08", "cmd": "c08", "shards": {"quick": 12, "thorough": 16}, "crash_is_violation": True}],
+     [{"name": "c08", "cmd": "c08", "shards": {"quick": 12, "thorough": 16}, "crash_is_violation": True},
+      {"name": "c08-asan", "cmd": "c08", "shards": 12, "tiers": ["thorough"], "run_tier": "quick", "build": "asan", "tag": "asan", "crash_is_violation": True, "timeout": {"thorough": 3000}}],
      {"quick": 10000, "thorough": 300000},
      ["range proofs are generated at the bulletproof size only (675 bytes, real or arbitrary content): other lengths are not proofs a wallet can hold and the binary reader pads to that size",
       "slatepack payloads are bounded to 100 kB (grin_core BinReader refuses larger single reads); ill-typed combinations (feature arguments on a plain kernel, invalid FeeFields) are left to C09",
@@ -71,7 +72,8 @@ prop("C10", "exploration",
      "slate only with a genuinely matching independent double-SHA256 check); plus owner::create_slatepack_message / "
      "slate_from_slatepack_message / decode_slatepack_message on real wallets with right/wrong derivation indices and wallets. "
      "distinct = (recipient count, sender present, state, commitment count class, proof present); non-trivial = all",
-     [{"name": "c10", "cmd": "c10", "shards": {"quick": 12, "thorough": 16}, "crash_is_violation": True}],
+     [{"name": "c10", "cmd": "c10", "shards": {"quick": 12, "thorough": 16}, "crash_is_violation": True},
+      {"name": "c10-asan", "cmd": "c10", "shards": 12, "tiers": ["thorough"], "run_tier": "quick", "build": "asan", "tag": "asan", "crash_is_violation": True, "timeout": {"thorough": 3000}}],
      {"quick": 100000, "thorough": 1000000},
      ["'no other key' is tested for the other pool keys, random keys, other derivation indices and the other wallet, not for all keys",
       "unencrypted binary/JSON slatepacks carry no integrity protection and are outside the statement (only armored text is)"],
@@ -87,7 +89,8 @@ prop("C09", "exploration",
      "encodings; sampled after), every single-field JSON mutation (15 hostile values + delete + x300 array) ; slatepacks validly age-encrypted "
      "to the wallet whose plaintext is malformed; a passphrase-type age file in a mode-1 slatepack. distinct = (entry point, input class, "
      "accepted/rejected, length bucket); non-trivial = all",
-     [{"name": "c09", "cmd": "c09", "shards": {"quick": 12, "thorough": 16}, "crash_is_violation": True, "timeout": {"quick": 900, "thorough": 3000}}],
+     [{"name": "c09", "cmd": "c09", "shards": {"quick": 12, "thorough": 16}, "crash_is_violation": True, "timeout": {"quick": 900, "thorough": 3000}},
+      {"name": "c09-asan", "cmd": "c09", "shards": 12, "tiers": ["thorough"], "run_tier": "quick", "build": "asan", "tag": "asan", "crash_is_violation": True, "timeout": {"thorough": 3000}}],
      {"quick": 300000, "thorough": 3000000},
      ["armored inputs are kept below ~20 kB (base58 decoding is quadratic; bounded by the size limit, so not a violation, but too slow to sweep)",
       "child-index (derivation counter) bumps are not counted as wallet state for the 'rejected input leaves state untouched' clause",
@@ -197,7 +200,8 @@ prop("C02", "exploration",
      "recorded change output and no output that is neither change nor the counterparty's honest output, equals get_stored_tx byte for byte, and is mined by "
      "the real chain; a refused reply leaves state unchanged and the transaction cancellable to the pre-send balance. distinct = (flow, alteration, outcome); "
      "non-trivial = all",
-     [{"name": "c02", "cmd": "c02", "shards": {"quick": 14, "thorough": 16}, "crash_is_violation": True, "timeout": {"quick": 900, "thorough": 3000}}],
+     [{"name": "c02", "cmd": "c02", "shards": {"quick": 14, "thorough": 16}, "crash_is_violation": True, "timeout": {"quick": 900, "thorough": 3000}},
+      {"name": "c02-asan", "cmd": "c02", "shards": 12, "tiers": ["thorough"], "run_tier": "quick", "build": "asan", "tag": "asan", "crash_is_violation": True, "timeout": {"thorough": 3000}}],
      {"quick": 800, "thorough": 5000},
      ["kernel-feature arguments are excluded as the statement says", "honest replies that fail are inconclusive, never violations"],
      required_hist=["success-exact:Send", "success-exact:Invoice", "success-exact:LateLock", "success-exact:SelfSend", "refused:altered", "cancel-after-refused-reply-restores-balance"])
@@ -225,7 +229,8 @@ prop("C07", "exploration",
      "still-unconfirmed candidate) may appear; nothing existing may change or vanish; honest receive: exactly one output of the slate amount in the "
      "destination account, reply with only the recipient's signed entry, second delivery refused without effect. distinct = (call kind, outcome, transport, "
      "records added); non-trivial = all",
-     [{"name": "c07", "cmd": "c07", "shards": {"quick": 12, "thorough": 16}, "crash_is_violation": True}],
+     [{"name": "c07", "cmd": "c07", "shards": {"quick": 12, "thorough": 16}, "crash_is_violation": True},
+      {"name": "c07-asan", "cmd": "c07", "shards": 12, "tiers": ["thorough"], "run_tier": "quick", "build": "asan", "tag": "asan", "crash_is_violation": True, "timeout": {"thorough": 3000}}],
      {"quick": 2500, "thorough": 30000},
      ["id and derivation counters may advance on a refused call (they reserve nothing)",
       "a validly counter-signed reply to an own slate is C02's domain and is not sent here"],
@@ -297,9 +302,13 @@ prop("C20", "exploration",
      "reserved send with TTL pending, B: the same past the TTL, C: B with one output record deleted and one wrongly Spent). Oracle: the final canonical "
      "records (outputs with status, value and the content of their entry; entries as a multiset with type, confirmation, amounts, fee, TTL, kernel excess by "
      "value for pre-made slates, proof signatures present, stored tx; child indices per account) together with which operations took effect must equal the "
-     "outcome of one of the serial orders run on the same snapshot. distinct = (start state, operations, positions, outcome); non-trivial = all",
-     [{"name": "c20", "cmd": "c20", "shards": {"quick": 16, "thorough": 16}, "crash_is_violation": True}],
+     "outcome of one of the serial orders run on the same snapshot. The operation set includes Look (a caller's retrieve_summary_info(refresh=true), i.e. a complete nested refresh on another thread). distinct = (start state, operations, positions, outcome); non-trivial = all",
+     [{"name": "c20", "cmd": "c20", "shards": {"quick": 16, "thorough": 16}, "crash_is_violation": True},
+      {"name": "c20t", "cmd": "c20t", "shards": {"quick": 8, "thorough": 16}, "tag": "threads", "crash_is_violation": True, "timeout": {"quick": 1200, "thorough": 3000}},
+      {"name": "c20t-tsan", "cmd": "c20t", "shards": 4, "tiers": ["thorough"], "run_tier": "quick", "build": "tsan", "tag": "tsan", "timeout": {"thorough": 3000}}],
      {"quick": 2000, "thorough": 15000},
      ["operations are atomic under the wallet lock, so interleavings are enumerated at lock-acquisition granularity, the granularity the property quantifies over",
-      "a refresh/scan that returns an error under an interleaving is counted, not judged"],
-     required_hist=["schedule-serializable", "schedules-in-configs-where-order-matters"])
+      "a refresh/scan that returns an error under an interleaving is counted, not judged",
+      "real-thread job (hist keys 'threads:'): 2 updater threads (refresh / refresh-all / scan loop with 0-0.6 ms sleeps at the lock announcements), a miner and 4 workers driving complete flows through api::Owner/Foreign on the same two wallets; judged at quiescent points by per-flight postconditions that hold in every serial order, the reservation invariants and the books; schedules are not replayable, the witness is the operation log",
+      "thorough only: the same real-thread job under ThreadSanitizer (hist keys 'tsan:'); reports are deduplicated by kind and first repository frame"],
+     required_hist=["schedule-serializable", "schedules-in-configs-where-order-matters", "threads:threads:judged:books", "threads:threads:flight:mined", "threads:threads:flight:cancelled"])
